@@ -115,13 +115,16 @@ def _der_int(i):
     return b"\x02" + bytes([len(b)]) + b
 
 
+HIGH_S = False          # spend.make switches this for spends signed the pre-BIP62 way (valid; refused only by the LOW_S policy flag)
+
+
 def ecdsa_sign(d, msg32, hashtype=1):
     z = int.from_bytes(msg32, "big")
     k = int.from_bytes(hashlib.sha256(b32(d) + msg32 + b"btcsim-nonce").digest(), "big") % N or 1
     r = mul(k)[0] % N
     s = pow(k, N - 2, N) * (z + r * d) % N
-    if s > N // 2:
-        s = N - s
+    if (s > N // 2) != HIGH_S:
+        s = N - s           # low S as every modern signer emits it - or, on request, the other (equally valid) one
     body = _der_int(r) + _der_int(s)
     return b"\x30" + bytes([len(body)]) + body + bytes([hashtype])
 
